@@ -138,3 +138,17 @@ func (Sched) Lock(m *vs.Mutex) bool {
 	return true
 }
 func (Sched) Unlock(m *vs.Mutex) bool { schedx.Unlock(&m.Held); return true }
+
+func (Sched) Spawn(fn func()) bool { return schedx.Spawn(fn) }
+
+func (Sched) Point(label string) bool {
+	if schedx.Current() < 0 {
+		return false
+	}
+	schedx.Point(label)
+	return true
+}
+
+func (Sched) WaitZero(word *int32, label string) bool { return schedx.WaitZero(word, label) }
+
+func init() { schedx.ForeignLive = func() int { return int(vs.Foreign.Load()) } }
